@@ -76,3 +76,20 @@ Proof.
     - intros k Hk. unfold delta1. cbn [Nat.add] in Hk. destruct (Nat.eqb_spec k j); [contradiction|reflexivity]. }
   etransitivity; [symmetry; exact (Hsingle G1 Hl1)|]. rewrite E1, <- E2. exact (Hsingle G2 Hl2).
 Qed.
+
+(* the same fact for ANY ring (R for meaning), in dual form: the two results pair identically with every perturbation of the leaves *)
+Theorem order_independent_dual :
+  forall (A : Type) (a0 a1 : A) (add mul sub : A -> A -> A) (opp : A -> A),
+  ring_theory a0 a1 add mul sub opp (@eq A) ->
+  forall (P : list (node A)), wf A P -> ops_ok A a0 add mul P ->
+  forall (L : nat) (seed : list A) (o1 o2 : list nat),
+  (L < length P)%nat -> valid_rest A P o1 -> In L o1 -> valid_rest A P o2 -> In L o2 ->
+  let G0 := upd A add (repeat [] (length P)) L seed in
+  forall delta : nat -> list A,
+  leaf_sum A a0 add mul delta 0 P (sweepL A add P o1 G0) = leaf_sum A a0 add mul delta 0 P (sweepL A add P o2 G0).
+Proof.
+  intros A a0 a1 add mul sub opp Rth P Hwf Hok L seed o1 o2 HL Hv1 Hin1 Hv2 Hin2 G0 delta.
+  pose proof (backward_order_adjoint A a0 a1 add mul sub opp Rth delta P Hwf Hok L seed o1 HL Hv1 Hin1) as [E1 _].
+  pose proof (backward_order_adjoint A a0 a1 add mul sub opp Rth delta P Hwf Hok L seed o2 HL Hv2 Hin2) as [E2 _].
+  fold G0 in E1, E2. rewrite E1, E2. reflexivity.
+Qed.
